@@ -12,13 +12,14 @@ extern "C" {
 namespace sim {
 namespace {
 
-enum Outcome { O_PASS, O_PASS_NZ, O_FAIL, O_ZERO, O_OVER, O_SZERO };   // terminal: PASS, PASS_NZ, FAIL ; retrying: ZERO, OVER, SZERO
-const char ON[] = "PpFZOS";
+enum Outcome { O_PASS, O_PASS_NZ, O_FAIL, O_ZERO, O_OVER, O_SZERO, O_BAND };   // terminal: PASS, PASS_NZ, FAIL, BAND ; retrying: ZERO, OVER, SZERO
+const char ON[] = "PpFZOSB";
 
 struct Ctl {
     std::vector<int> seq;            // outcomes per attempt; beyond the end: pass through
     const unsigned char *extra;      // optional RFC 6979 extra data
     unsigned char ks[32];            // nonce that forces s == 0 for this key and message
+    unsigned char kb[32];            // the caller's own nonce (BAND): the message is chosen so that the raw s lands on a boundary of the low-S rule
     const unsigned char *want_msg, *want_key;
     int calls = 0; bool counter_ok = true, args_ok = true;
 };
@@ -33,6 +34,7 @@ int ctl_nonce(unsigned char *nonce32, const unsigned char *msg32, const unsigned
         case O_ZERO: memset(nonce32, 0, 32); return 1;
         case O_OVER: memset(nonce32, 0xff, 32); return 1;
         case O_SZERO: memcpy(nonce32, c->ks, 32); return 1;
+        case O_BAND: memcpy(nonce32, c->kb, 32); return 1;
         default: {
             int r = secp256k1_nonce_function_rfc6979(nonce32, msg32, key32, NULL, (void *)c->extra, counter);
             return (o == O_PASS_NZ && r) ? 7 : r;
@@ -61,11 +63,11 @@ static void sigsvc_execute(const Plan &p, const ExecOpts &, Result &r) {
     L(secp256k1_context_set_sha256_compression(ctxs[2], sim_model_compression));
     // outcome sequences: up to three retrying outcomes followed by a terminal one
     std::vector<std::vector<int>> seqs;
-    static const int retry[3] = {O_ZERO, O_OVER, O_SZERO}, term[3] = {O_PASS, O_PASS_NZ, O_FAIL};
+    static const int retry[3] = {O_ZERO, O_OVER, O_SZERO}, term[4] = {O_PASS, O_PASS_NZ, O_FAIL, O_BAND};
     for (int len = 0; len <= 3; len++) {
         int combos = 1; for (int i = 0; i < len; i++) combos *= 3;
         for (int c = 0; c < combos; c++)
-            for (int t = 0; t < 3; t++) {
+            for (int t = 0; t < 4; t++) {
                 std::vector<int> s; int x = c;
                 for (int i = 0; i < len; i++) { s.push_back(retry[x % 3]); x /= 3; }
                 s.push_back(term[t]);
@@ -103,6 +105,25 @@ static void sigsvc_execute(const Plan &p, const ExecOpts &, Result &r) {
                         ref::U256 rr = ref::FN.reduce(R.x);
                         ref::FN.neg(ref::FN.mul(rr, d_eff)).to_be(msg);
                     }
+                    bool band = seq.back() == O_BAND;
+                    fresh32(ctl.kb); ctl.kb[0] &= 0x7f; ctl.kb[31] |= 1;
+                    if (band && !has_s) {   // m = T*k - r*d mod n  =>  raw s = T, a boundary of the low-S rule (both limb widths)
+                        ref::U256 half1 = ref::FN.add(ref::HALF_N, ref::U256(1)), T;
+                        switch ((cells + (int64_t)si + p.c("model_off")) % 8) {
+                            case 0: T = half1; break;                                              // (n+1)/2: the smallest high value
+                            case 1: T = ref::HALF_N; break;                                        // (n-1)/2: the largest low value
+                            case 2: T = ref::FN.add(half1, ref::U256(0x01234567)); break;
+                            case 3: T = ref::FN.add(ref::HALF_N, ref::U256(0x97E4DF5Full)); break; // low 32-bit limb of (n-1)/2 wraps
+                            case 4: T = ref::FN.add(ref::HALF_N, ref::U256(0x100000000ull)); break;
+                            case 5: { uint8_t b[32]; memset(b, 0xff, 32); b[0] = 0x7f; T = ref::U256::from_be(b); break; }   // 2^255 - 1
+                            case 6: { uint8_t b[32] = {0x80}; T = ref::U256::from_be(b); break; }                            // 2^255
+                            default: T = ref::FN.neg(ref::U256(1)); break;                                                   // n - 1
+                        }
+                        ref::U256 kk = ref::U256::from_be(ctl.kb);
+                        ref::U256 rr = ref::FN.reduce(ref::mulG(kk).x);
+                        ref::FN.sub(ref::FN.mul(T, kk), ref::FN.mul(rr, d_eff)).to_be(msg);
+                        r.probe("raw_s_on_low_s_boundary");
+                    }
                     // model of the loop
                     int exp_calls = 0; bool exp_ok = false; int win = -1;
                     for (size_t a = 0;; a++) {
@@ -110,6 +131,7 @@ static void sigsvc_execute(const Plan &p, const ExecOpts &, Result &r) {
                         exp_calls++;
                         if (o == O_FAIL) break;
                         if (o == O_ZERO || o == O_OVER || o == O_SZERO) continue;
+                        if (o == O_BAND && ref::FN.reduce(ref::U256::from_be(msg)) == ref::FN.neg(ref::FN.mul(ref::FN.reduce(ref::mulG(ref::U256::from_be(ctl.kb)).x), d_eff))) continue;   // s == 0 with this nonce too (never in practice)
                         win = (int)a; exp_ok = true; break;   // pass through: a valid RFC 6979 nonce (r, s != 0 with overwhelming probability)
                     }
                     bool exp_ret = exp_ok && key_valid;
@@ -171,14 +193,15 @@ static void sigsvc_execute(const Plan &p, const ExecOpts &, Result &r) {
                         r.cmp();
                         if (!r3 || memcmp(b3, sig64, 64) != 0) { r.violate("C01", "default_nonce_mismatch", api, cell + ": pass-through callback and noncefp == NULL give different signatures"); break; }
                     }
-                    if ((int)(cells % mod) == off) {
+                    if (band || (int)(cells % mod) == off) {
                         model_cells++;
                         uint8_t k32[32], mr[32], ms[32]; int mrec = -1;
+                        if (band) memcpy(k32, ctl.kb, 32); else
                         ref::rfc6979_nonce(keys[kc], msg, exp, nullptr, (unsigned)win, k32);
                         bool mok = ref::ecdsa_sign_nonce(d_eff, msg, k32, mr, ms, &mrec);
                         r.cmp();
                         if (!mok || memcmp(mr, sig64, 32) != 0 || memcmp(ms, sig64 + 32, 32) != 0 || (entry && mrec != recid)) {
-                            r.violate("C01", "model_mismatch", api, cell + ": signature differs from the model (RFC 6979 nonce #" + std::to_string(win) + " of key || msg mod n" + (exp ? " || extra" : "") + ")"); break;
+                            r.violate("C01", "model_mismatch", api, cell + (band ? ": signature differs from the model for the caller's own nonce (raw s on a low-S boundary)" : ": signature differs from the model (RFC 6979 nonce #" + std::to_string(win) + " of key || msg mod n" + (exp ? " || extra" : "") + ")")); break;
                         }
                         ref::Pt P = ref::mulG(d_eff);
                         if (!ref::ecdsa_verify(P, msg, sig64, sig64 + 32)) { r.violate("C01", "invalid_signature", api, cell + ": signature invalid in the reference model"); break; }
